@@ -32,9 +32,11 @@ type c11Script struct {
 // NO context is attached: what it creates (parked in a library table, globals are reset between
 // runs) predates SetContext.
 var c11Pre = map[string]string{
-	"co-made-before-setcontext-spins":               `string.verif_co = coroutine.create(function() local n = 0 while true do n = n + 1 if n % 7 == 0 then emit("in", n) end end end)`,
-	"co-made-before-setcontext-creates-the-spinner": `string.verif_maker = coroutine.wrap(function() while true do coroutine.yield(coroutine.wrap(function() local n = 0 while true do n = n + 1 if n % 7 == 0 then emit("in", n) end end end)) end end)`,
-	"co-suspended-before-setcontext-resumed-after":  `string.verif_gen = coroutine.create(function() local n = 0 while true do n = n + 1 coroutine.yield(n) end end) coroutine.resume(string.verif_gen)`,
+	"co-made-before-setcontext-spins":                          `string.verif_co = coroutine.create(function() local n = 0 while true do n = n + 1 if n % 7 == 0 then emit("in", n) end end end)`,
+	"co-made-before-setcontext-creates-the-spinner":            `string.verif_maker = coroutine.wrap(function() while true do coroutine.yield(coroutine.wrap(function() local n = 0 while true do n = n + 1 if n % 7 == 0 then emit("in", n) end end end)) end end)`,
+	"co-suspended-before-setcontext-resumed-after":             `string.verif_gen = coroutine.create(function() local n = 0 while true do n = n + 1 coroutine.yield(n) end end) coroutine.resume(string.verif_gen)`,
+	"co-suspended-before-setcontext-spins-after":               `string.verif_sus = coroutine.create(function() coroutine.yield("started") local n = 0 while true do n = n + 1 if n % 7 == 0 then emit("sp", n) end end end) coroutine.resume(string.verif_sus)`,
+	"co-suspended-before-setcontext-creates-the-spinner-after": `string.verif_sus2 = coroutine.wrap(function() coroutine.yield("started") local c = coroutine.wrap(function() local n = 0 while true do n = n + 1 if n % 7 == 0 then emit("in", n) end end end) emit("made") c() end) string.verif_sus2()`,
 }
 
 var c11Scripts = []c11Script{
@@ -66,6 +68,8 @@ var c11Scripts = []c11Script{
 	{"co-made-before-setcontext-spins", `emit("res", coroutine.resume(string.verif_co)) emit("after") while true do end`, true, 3},
 	{"co-made-before-setcontext-creates-the-spinner", `local inner = string.verif_maker() emit("got") inner()`, true, 4},
 	{"co-suspended-before-setcontext-resumed-after", `while true do local ok, v = coroutine.resume(string.verif_gen) if v % 3 == 0 then emit("y", v) end end`, true, 3},
+	{"co-suspended-before-setcontext-spins-after", `emit("res", coroutine.resume(string.verif_sus)) emit("after") while true do end`, true, 3},
+	{"co-suspended-before-setcontext-creates-the-spinner-after", `string.verif_sus2() emit("after") while true do end`, true, 4},
 	// terminating programs: cancellation beyond their end must change nothing
 	{"term-arith", `local s = 0 for i = 1, 20 do s = s + i * i end emit("sum", s) return s`, false, 1},
 	{"term-pcall", `local ok, e = pcall(error, {}) emit("pc", ok, type(e)) local t = {} for i = 1, 5 do t[i] = tostring(i) end emit(table.concat(t)) return #t`, false, 2},
